@@ -59,7 +59,7 @@ def generated(seed: int, n: int) -> list[dict[str, Any]]:
             if what == 'cat': r = dataclasses.replace(r, categories=frozenset() if r.categories else frozenset({'catx'}))
             if what == 'verbs': r = dataclasses.replace(r, verbs=frozenset(rnd.sample(sorted(ALL), rnd.randint(2, 5))))
             out.append(r)
-        if group == 'g1.example.com' and rnd.random() < 0.3:
+        if group == 'g1.example.com' and rnd.random() < 0.3 and not any(r.version == 'v3' for r in out):      # (a scan names a resource once)
             out.append(R(group, 'v3', 'things', kind='Thing', singular='thing', namespaced=True, preferred=rnd.random() < 0.5, verbs=ALL))
         return out
 
